@@ -59,6 +59,7 @@ pub enum OOp {
     Remove { who: u8, auth: AuthVar, abort: Option<u16> },
     TransferOwnership { to: u8, auth: AuthVar, abort: Option<u16> },
     Execute { operator: u8, target: Target, auth: AuthVar, abort: Option<u16> },
+    Advance { dseq: u32 },
     Resubmit { k: u16 },
 }
 
@@ -69,6 +70,7 @@ impl OOp {
             OOp::Remove { .. } => "remove_operator",
             OOp::TransferOwnership { .. } => "transfer_ownership",
             OOp::Execute { .. } => "execute",
+            OOp::Advance { .. } => "advance",
             OOp::Resubmit { .. } => "resubmit",
         }
     }
@@ -313,6 +315,9 @@ impl OExec {
                     self.m.receiver_bal += *amount as i128;
                 }
             }
+            OOp::Advance { dseq } => {
+                crate::common::advance_ledgers(&self.sim, ctx, *dseq);
+            }
             OOp::Resubmit { .. } => {}
         }
     }
@@ -407,6 +412,9 @@ impl World for WorldO {
                 _ => OOp::Resubmit { k: rng.below(64) as u16 },
             };
             ops.push(op);
+            if rng.chance(1, 12) {
+                ops.push(OOp::Advance { dseq: *rng.pick(&[1u32, 17, 100, 20_000]) });
+            }
         }
         (cfg, ops)
     }
@@ -450,7 +458,7 @@ impl World for WorldO {
             };
             ctx.trace_str(eff.kind());
             ex.run_op(ctx, &eff);
-            if !matches!(op, OOp::Resubmit { .. }) {
+            if !matches!(op, OOp::Resubmit { .. } | OOp::Advance { .. }) {
                 ex.history.push(op.clone());
             }
             if !ctx.stopped() {
